@@ -60,17 +60,16 @@ func (d *deduplicator) notifyDKGStarted(
 
 	// The cache key is the hexadecimal representation of the seed.
 	cacheKey := newDKGSeed.Text(16)
-	// If the key is not in the cache, that means the seed was not handled
-	// yet and the client should proceed with the execution.
-	if !d.dkgSeedCache.Has(cacheKey) {
-		verifhook.Point("tbtc.notifyDKGStarted")
-		d.dkgSeedCache.Add(cacheKey)
-		return true
-	}
-
-	// Otherwise, the DKG seed is a duplicate and the client should not proceed
-	// with the execution.
-	return false
+	// Add checks for the key and inserts it in one step under the cache's
+	// lock and reports whether the key was inserted. Checking with Has and
+	// inserting with a separate Add call would let two concurrent deliveries
+	// of the same event both see the key as missing and both be handled.
+	//
+	// If the key was inserted, the event was not handled yet and the client
+	// should proceed with the execution. Otherwise, it is a duplicate and the
+	// client should not proceed with the execution.
+	verifhook.Point("tbtc.notifyDKGStarted")
+	return d.dkgSeedCache.Add(cacheKey)
 }
 
 // notifyDKGResultSubmitted notifies the client wants to start some actions
@@ -87,17 +86,16 @@ func (d *deduplicator) notifyDKGResultSubmitted(
 		hex.EncodeToString(newDKGResultHash[:]) +
 		strconv.Itoa(int(newDKGResultBlock))
 
-	// If the key is not in the cache, that means the result was not handled
-	// yet and the client should proceed with the execution.
-	if !d.dkgResultHashCache.Has(cacheKey) {
-		verifhook.Point("tbtc.notifyDKGResultSubmitted")
-		d.dkgResultHashCache.Add(cacheKey)
-		return true
-	}
-
-	// Otherwise, the DKG result is a duplicate and the client should not
-	// proceed with the execution.
-	return false
+	// Add checks for the key and inserts it in one step under the cache's
+	// lock and reports whether the key was inserted. Checking with Has and
+	// inserting with a separate Add call would let two concurrent deliveries
+	// of the same event both see the key as missing and both be handled.
+	//
+	// If the key was inserted, the event was not handled yet and the client
+	// should proceed with the execution. Otherwise, it is a duplicate and the
+	// client should not proceed with the execution.
+	verifhook.Point("tbtc.notifyDKGResultSubmitted")
+	return d.dkgResultHashCache.Add(cacheKey)
 }
 
 func (d *deduplicator) notifyWalletClosed(
@@ -108,15 +106,14 @@ func (d *deduplicator) notifyWalletClosed(
 	// Use wallet ID converted to string as the cache key.
 	cacheKey := hex.EncodeToString(WalletID[:])
 
-	// If the key is not in the cache, that means the wallet closure was not
-	// handled yet and the client should proceed with the execution.
-	if !d.walletClosedCache.Has(cacheKey) {
-		verifhook.Point("tbtc.notifyWalletClosed")
-		d.walletClosedCache.Add(cacheKey)
-		return true
-	}
-
-	// Otherwise, the wallet closure is a duplicate and the client should not
-	// proceed with the execution.
-	return false
+	// Add checks for the key and inserts it in one step under the cache's
+	// lock and reports whether the key was inserted. Checking with Has and
+	// inserting with a separate Add call would let two concurrent deliveries
+	// of the same event both see the key as missing and both be handled.
+	//
+	// If the key was inserted, the event was not handled yet and the client
+	// should proceed with the execution. Otherwise, it is a duplicate and the
+	// client should not proceed with the execution.
+	verifhook.Point("tbtc.notifyWalletClosed")
+	return d.walletClosedCache.Add(cacheKey)
 }
